@@ -1128,6 +1128,9 @@ pub struct LoginScript {
     pub locale: String,
     /// echo keep-alives while waiting for the outcome
     pub echo_keep_alive: bool,
+    /// the client lets this much *real* time pass before it answers the authentication cookie request
+    #[serde(default)]
+    pub real_stall_before_auth_cookie_ms: u32,
 }
 
 impl Default for LoginScript {
@@ -1145,6 +1148,7 @@ impl Default for LoginScript {
             shared_secret: (0u8..16).collect(),
             locale: "en_us".into(),
             echo_keep_alive: true,
+            real_stall_before_auth_cookie_ms: 0,
         }
     }
 }
@@ -1176,6 +1180,9 @@ pub async fn drive_login(c: &mut Client, s: &LoginScript) {
             Pkt::LoginCookieRequest { key } => {
                 cookie_requests += 1;
                 let ans = if key == "passage:session" { &s.session_cookie } else { &s.auth_cookie };
+                if key != "passage:session" && s.real_stall_before_auth_cookie_ms > 0 {
+                    std::thread::sleep(Duration::from_millis(u64::from(s.real_stall_before_auth_cookie_ms)));
+                }
                 let payload = match ans {
                     CookieAnswer::Absent => None,
                     CookieAnswer::Payload(p) => Some(p.clone()),
